@@ -178,7 +178,9 @@ def _convolve_model_dir_2(model_dir, filters, overwrite=False, memmap=True):
 
         for i, f in enumerate(binned_filters):
 
-            response = f.response.astype(sed_val.dtype)
+            # (in double precision: for a cube stored in single precision the
+            # products, and above all their squares, can underflow)
+            response = f.response.astype(float)
 
             fluxes[i].flux[:, i_ap] = np.sum(sed_val * response, axis=1) * val_factor * u.mJy
             fluxes[i].error[:, i_ap] = np.sqrt(np.sum((sed_unc * response) ** 2, axis=1)) * unc_factor * u.mJy
